@@ -3,3 +3,4 @@ CONSTRAINT HighWater
 INVARIANT TInv
 POSTCONDITION Post
 CHECK_DEADLOCK FALSE
+CONSTANTS AddrUpd = FALSE
